@@ -74,7 +74,8 @@ class Logic:
     def getParameterValue(self, name):
         value = self.parameters[name]
         
-        if (isinstance(value, Parameter)):
+        # a parameter can be inherited through several levels of the hierarchy
+        while (isinstance(value, Parameter)):
             value = value.obj.parameters[value.name]
         return value
     
